@@ -53,6 +53,10 @@ pub struct TlsCase {
     /// the https / wss request is issued
     #[serde(default)]
     pub prior_plain: bool,
+    /// a Host header supplied by the caller (naming another host than the URI does): the TLS
+    /// server name and the certificate check follow the URI, never this header
+    #[serde(default)]
+    pub host_header: Option<String>,
 }
 
 pub struct TlsSim;
@@ -303,6 +307,7 @@ impl Scenario for TlsSim {
             io_faulty: r.chance(2, 3),
             via_client: r.chance(1, 3),
             prior_plain: false,
+            host_header: if r.chance(1, 4) { Some(r.pick(&["sim.test", "other.example", "a.test:8443", "127.0.0.1"]).to_string()) } else { None },
         }
     }
 
@@ -361,13 +366,11 @@ impl Scenario for TlsSim {
                     if case.via_client {
                         let cfg = super::ClientCfg { pool: true, idle_timeout_ms: None, max_idle: 32, continue_after_preemption: true, alpn_h2: case.client_alpn_h2, timeout_ms: Some(20_000), order: order_of(case) };
                         let svc = super::build_client(&net, &cfg, true);
-                        let req = http::Request::builder()
-                            .method("GET")
-                            .uri(uri.as_str())
-                            .header("x-req-id", "1")
-                            .header("x-body-len", "0")
-                            .body(ChunkBody::default())
-                            .unwrap();
+                        let mut rb = http::Request::builder().method("GET").uri(uri.as_str()).header("x-req-id", "1").header("x-body-len", "0");
+                        if let Some(h) = &case.host_header {
+                            rb = rb.header(http::header::HOST, h.as_str());
+                        }
+                        let req = rb.body(ChunkBody::default()).unwrap();
                         match svc.oneshot(req).await {
                             Ok(resp) => {
                                 use http_body_util::BodyExt;
@@ -381,7 +384,11 @@ impl Scenario for TlsSim {
                     } else {
                         use hyperdriver::client::conn::transport::TransportExt;
                         let transport = net.transport().with_tls(client_cfg);
-                        let parts = http::Request::get(uri.as_str()).body(()).unwrap().into_parts().0;
+                        let mut rb = http::Request::get(uri.as_str());
+                        if let Some(h) = &case.host_header {
+                            rb = rb.header(http::header::HOST, h.as_str());
+                        }
+                        let parts = rb.body(()).unwrap().into_parts().0;
                         match TransportExt::oneshot(transport, parts).await {
                             Err(e) => Err(format!("{}", e)),
                             Ok(mut stream) => {
@@ -516,6 +523,7 @@ impl Scenario for TlsSim {
         sig.push(case.client_alpn_h2 as u64 * 2 + case.server_alpn_h2 as u64);
         sig.push_str(&match &case.peer { Peer::RawTruncated { at, stall } => format!("trunc{}-{}", at / 64, stall), p => format!("{:?}", p) });
         sig.push(case.via_client as u64);
+        sig.push_str(case.host_header.as_deref().unwrap_or("-"));
         out.abstract_sig = sig.0;
         let mut log = Digest::default();
         log.push(ok as u64);
@@ -579,7 +587,21 @@ fn enumerated() -> Vec<TlsCase> {
         io_faulty: false,
         via_client: false,
         prior_plain: false,
+        host_header: None,
     };
+    // a caller-supplied Host header that names another host than the URI
+    for (host, hdr) in [("other.example", "sim.test"), ("sim.test", "other.example"), ("[::1]", "sim.test:8443"), ("10.0.0.9", "sim.test"), ("sim.test", "10.0.0.9")] {
+        for scheme in ["https", "wss"] {
+            for via_client in [false, true] {
+                for peer in [Peer::RealTls, Peer::RealPlain] {
+                    let mut c = base(scheme, host, CertKind::Good, peer);
+                    c.via_client = via_client;
+                    c.host_header = Some(hdr.to_string());
+                    v.push(c);
+                }
+            }
+        }
+    }
     for scheme in SCHEMES {
         for host in HOSTS {
             for cert in [CertKind::Good, CertKind::Mismatch, CertKind::Untrusted, CertKind::Expired] {
